@@ -10,6 +10,45 @@ Definition is_encrypted_assertion (ctx : nsctx) (e : node) : bool := resolves ct
 Lemma other_ok {A} (r : res A) a : other r = Ok a -> r = Ok a.
 Proof. destruct r; cbn; intros H; inversion H; reflexivity. Qed.
 
+(* ---------- validateElementSignature: goxmldsig's answer, "missing" not believed of an element enveloping a ds:Signature ---------- *)
+(* a direct child ELEMENT of root resolves to {http://www.w3.org/2000/09/xmldsig#}Signature *)
+Definition EnvelopedSignature (root : node) : Prop := HasChild ds_ns ds_signature_tag root.
+
+Lemma ves_ok dsig el v : validate_element_signature dsig el = DOk v <-> dsig el = DOk v.
+Proof.
+  unfold validate_element_signature. destruct (dsig el) as [v'| |]; [tauto| |split; discriminate].
+  destruct (ns_find_one_child el ds_ns ds_signature_tag) as [[s|]|e]; split; discriminate.
+Qed.
+
+Lemma ves_missing dsig el :
+  validate_element_signature dsig el = DMissing <->
+  dsig el = DMissing /\ ns_find_one_child el ds_ns ds_signature_tag = Ok None.
+Proof.
+  unfold validate_element_signature. destruct (dsig el) as [v'| |].
+  - split; [discriminate|intros [? _]; discriminate].
+  - destruct (ns_find_one_child el ds_ns ds_signature_tag) as [[s|]|e]; split; try discriminate; try tauto;
+      intros [_ ?]; discriminate.
+  - split; [discriminate|intros [? _]; discriminate].
+Qed.
+
+Lemma ves_err dsig el : dsig el = DErr -> validate_element_signature dsig el = DErr.
+Proof. unfold validate_element_signature. intros ->. reflexivity. Qed.
+
+(* the repaired clause: an element that envelops a ds:Signature child is never "unsigned" *)
+Lemma ves_enveloped_not_missing dsig el :
+  EnvelopedSignature el -> validate_element_signature dsig el <> DMissing.
+Proof.
+  intros HE H. apply (proj1 (ves_missing _ _)) in H as [_ H]. exact (ns_find_one_child_none _ _ _ H HE).
+Qed.
+
+Lemma ves_enveloped_missing_is_error dsig el :
+  EnvelopedSignature el -> dsig el = DMissing -> validate_element_signature dsig el = DErr.
+Proof.
+  intros HE Hd. unfold validate_element_signature. rewrite Hd.
+  destruct (ns_find_one_child el ds_ns ds_signature_tag) as [[s|]|e] eqn:EF; try reflexivity.
+  exfalso. exact (ns_find_one_child_none _ _ _ EF HE).
+Qed.
+
 Section Theorems.
   Variable dsig : node -> dsig_result.
   Variable decrypt : node -> res node.
@@ -122,7 +161,8 @@ Section Theorems.
       decrypt_assertions decrypt root = Ok root' /\
       signed_assertions dsig root' = Ok (r_assertions r) /\
       r = with_flag r0 false (r_assertions r) 0 /\
-      Forall (Vouched root') (r_assertions r).
+      Forall (Vouched root') (r_assertions r) /\
+      ns_find_one_child root ds_ns ds_signature_tag = Ok None.     (* validateElementSignature found no enveloped ds:Signature *)
 
   Lemma response_sound cfg now root r :
     cfg_skip_sig cfg = false ->
@@ -130,17 +170,24 @@ Section Theorems.
     validate cfg now r = Ok tt /\ (SignedPath cfg now root r \/ UnsignedPath cfg now root r).
   Proof.
     intros Hs. unfold validate_response_tree. rewrite Hs.
-    destruct (dsig root) as [signed| |] eqn:ED; [| |discriminate].
-    - unfold bind. destruct (decrypt_assertions decrypt signed) as [signed'|er] eqn:EDEC; [|discriminate].
+    destruct (validate_element_signature dsig root) as [signed| |] eqn:ED; [| |discriminate].
+    - apply (proj1 (ves_ok _ _ _)) in ED. unfold bind. destruct (decrypt_assertions decrypt signed) as [signed'|er] eqn:EDEC; [|discriminate].
       destruct (other (unmarshal_response signed')) as [r0|er] eqn:EU; [|discriminate]. apply other_ok in EU.
       destruct (validate cfg now (with_flag r0 true (r_assertions r0) (r_encrypted_count r0))) as [[]|er] eqn:EV; [|discriminate].
-      intros H; inversion H; subst. split; [exact EV|]. left. exists signed, signed', r0. auto.
-    - unfold bind. destruct (unmarshal_response root) as [r0|er] eqn:EU; [|discriminate].
+      intros H; inversion H; subst. split; [exact EV|]. left. exists signed, signed', r0. repeat split; auto.
+    - apply (proj1 (ves_missing _ _)) in ED as [ED ENS]. unfold bind. destruct (unmarshal_response root) as [r0|er] eqn:EU; [|discriminate].
       destruct (decrypt_assertions decrypt root) as [root'|er] eqn:EDEC; [|discriminate].
       destruct (signed_assertions dsig root') as [l|er] eqn:ESA; [|discriminate].
       destruct (validate cfg now (with_flag r0 false l 0)) as [[]|er] eqn:EV; [|discriminate].
       intros H; inversion H; subst. split; [exact EV|]. right. exists r0, root'. cbn [r_assertions with_flag].
       repeat split; auto. apply signed_assertions_sound; exact ESA.
+  Qed.
+
+  (* what the unsigned path says about the root: goxmldsig found no signature referencing it AND it envelops none *)
+  Lemma unsigned_path_no_enveloped_signature cfg now root r :
+    UnsignedPath cfg now root r -> dsig root = DMissing /\ ~ EnvelopedSignature root.
+  Proof.
+    intros (r0 & root' & Hd & _ & _ & _ & _ & _ & HN). split; [exact Hd|]. exact (ns_find_one_child_none _ _ _ HN).
   Qed.
 
   Lemma skip_path cfg now root r :
@@ -169,7 +216,7 @@ Section Theorems.
     cfg_skip_sig cfg = false -> dsig root = DErr ->
     exists e, validate_response_tree dsig decrypt cfg now root = Err e /\ e <> EMissingSignature.
   Proof.
-    intros Hs Hd. unfold validate_response_tree. rewrite Hs, Hd. eexists; split; [reflexivity|discriminate].
+    intros Hs Hd. unfold validate_response_tree. rewrite Hs, (ves_err _ _ Hd). eexists; split; [reflexivity|discriminate].
   Qed.
 
   (* C01 / C02: in an unsigned Response, ANY Assertion element anywhere that is not a direct child, or whose own
@@ -223,7 +270,7 @@ Section Theorems.
     Forall (fun a => a_signature_validated a = true) (r_assertions r) /\
     exists root', decrypt_assertions decrypt root = Ok root' /\ Forall (Vouched root') (r_assertions r).
   Proof.
-    intros Hs H Hf. destruct (response_sound _ _ _ _ Hs H) as [_ [(s & s' & r0 & _ & _ & _ & ->)|(r0 & root' & _ & _ & Hdec & _ & _ & HV)]].
+    intros Hs H Hf. destruct (response_sound _ _ _ _ Hs H) as [_ [(s & s' & r0 & _ & _ & _ & ->)|(r0 & root' & _ & _ & Hdec & _ & _ & HV & _)]].
     - discriminate.
     - split; [|eauto]. eapply Forall_impl; [|exact HV].
       intros a (i & e & ctx & det & v & a0 & _ & _ & _ & _ & _ & _ & ->). reflexivity.
@@ -254,13 +301,14 @@ Section Theorems.
   Lemma logout_step_ok cfg root el flag :
     logout_signature_step dsig cfg root = Ok (el, flag) ->
     (flag = true <-> cfg_skip_sig cfg = false /\ dsig root = DOk el) /\
-    (flag = false -> el = root /\ (cfg_skip_sig cfg = true \/ dsig root = DMissing)).
+    (flag = false -> el = root /\ (cfg_skip_sig cfg = true \/ (dsig root = DMissing /\ ~ EnvelopedSignature root))).
   Proof.
     unfold logout_signature_step. destruct (cfg_skip_sig cfg).
     - intros H; inversion H; subst. split; [split; [discriminate|intros [? _]; discriminate]|auto].
-    - destruct (dsig root) as [v| |]; intros H; inversion H; subst.
-      + split; [split; auto|discriminate].
-      + split; [split; [discriminate|intros [_ ?]; discriminate]|auto].
+    - destruct (validate_element_signature dsig root) as [v| |] eqn:ED; intros H; inversion H; subst.
+      + apply (proj1 (ves_ok _ _ _)) in ED. split; [split; auto|discriminate].
+      + apply (proj1 (ves_missing _ _)) in ED as [ED ENS]. apply ns_find_one_child_none in ENS.
+        split; [split; [discriminate|intros [_ ?]; congruence]|auto].
   Qed.
 
   Lemma logout_response_accept cfg root r :
@@ -293,7 +341,7 @@ Section Theorems.
     (exists e, validate_logout_request_tree dsig cfg root = Err e).
   Proof.
     intros Hs Hd. unfold validate_logout_response_tree, validate_logout_request_tree, logout_signature_step.
-    rewrite Hs, Hd. cbn. eauto.
+    rewrite Hs, (ves_err _ _ Hd). cbn. eauto.
   Qed.
 End Theorems.
 
